@@ -25,7 +25,7 @@ from harness import common
 
 TYC = {'$': 3, '%': 2, '!': 4, '#': 8}
 STR_SCALARS = ['A$', 'B$', 'C$', 'X$', 'Y$']
-NUM_SCALARS = ['Q!', 'R!', 'N%', 'D#', 'X!', 'Y%', 'Z#']
+NUM_SCALARS = ['Q!', 'R!', 'N%', 'D#', 'X!', 'Y%', 'Z#', 'X%', 'X#']
 STR_ARRAYS = ['S$', 'T$']
 ARR_OBS = 13          # elements 0..12 of each array are observed (DIM goes up to 12)
 HASH_MOD = 1000003
@@ -36,13 +36,13 @@ E_IFC, E_OVERFLOW, E_OOM, E_SUBSCRIPT, E_DUPDEF, E_ILLDIRECT, E_TM, E_OOSS, E_TO
 E_STX = 2
 
 
-def norm(name):
-    """a parameter written without a sigil has the default type (single)"""
-    return name + '!' if len(name) == 1 else name
+DEFT = {'INT': '%', 'SNG': '!', 'DBL': '#', 'STR': '$'}
 
 
 def nid(name):
-    """numeric id of a variable / function name: 10 * letter index + type code"""
+    """numeric id of a variable / function name: 10 * letter index + type code (0: no sigil, default type)"""
+    if len(name) == 1:
+        return 10 * (ord(name.upper()) - 64)
     assert len(name) == 2 and name[0].isalpha() and name[1] in TYC, name
     return 10 * (ord(name[0].upper()) - 64) + TYC[name[1]]
 
@@ -120,6 +120,8 @@ def b_stmt(st, var_start=None):
         if st[1] is None:
             return 'CLEAR'
         return 'CLEAR ,%d' % (var_start + 514 + st[1])
+    if k == 'deftype':
+        return 'DEF%s %s-%s' % (st[1], st[2], st[3])
     if k == 'input':
         return 'INPUT %s' % ','.join(b_lv(l) for l in st[1])
     if k == 'def':
@@ -407,12 +409,14 @@ class CoqPrinter(object):
             return '(SDim %d %s)' % (nid(st[1]), c_z(st[2]))
         if k == 'clear':
             return '(SClear %s)' % c_opt(st[1], c_z)
+        if k == 'deftype':
+            return '(SDeftype %d %d %d)' % (TYC[DEFT[st[1]]], ord(st[2]) - 64, ord(st[3]) - 64)
         if k == 'input':
             return '(SInput [%s] [%s])' % (
                 ';'.join(self.lv(l) for l in st[1]),
                 ';'.join('(IStr %s)' % zl(w.encode('latin1')) if isinstance(w, str) else '(INum %s)' % c_z(w) for w in st[2]))
         if k == 'def':
-            return '(SDef %d [%s] %s)' % (nid(st[1]), ';'.join('%d' % nid(norm(p)) for p in st[2]), X(st[3]))
+            return '(SDef %d [%s] %s)' % (nid(st[1]), ';'.join('%d' % nid(p) for p in st[2]), X(st[3]))
         raise ValueError(st)
 
 
@@ -495,6 +499,11 @@ class Ref(object):
         self.fre_log = []
         self.totmem = 65534
         self.var_start = 0
+        self.deftype = {}      # letter -> sigil set by DEFINT/DEFSNG/DEFDBL/DEFSTR (default '!')
+
+    def res(self, name):
+        """complete a name that has no sigil with the default type of its letter, as of now"""
+        return name + self.deftype.get(name[0], '!') if len(name) == 1 else name
 
     def zero(self, name):
         return sv(b'') if name[-1] == '$' else (name[-1], 0)
@@ -527,7 +536,7 @@ class Ref(object):
         if k == 'num':
             return (e[2], e[1])
         if k == 'sv':
-            return self._visit(self.get(e[1]))
+            return self._visit(self.get(self.res(e[1])))
         if k == 'av':
             self.check_index(e[1], e[2])
             return self._visit(self.arr[e[1]][1][e[2]])
@@ -624,6 +633,7 @@ class Ref(object):
         if f not in self.fns:
             raise RefError(E_UNDEF_FN)
         params, body = self.fns[f]
+        params = [self.res(p) for p in params]       # completed when the call is made
         if len(args) != len(params):
             raise RefError(E_STX)
         vals = [_conv(p[-1], self.ev(a)) for p, a in zip(params, args)]
@@ -742,6 +752,7 @@ class Ref(object):
             self.sv.clear()
             self.arr.clear()
             self.fns.clear()
+            self.deftype.clear()
         elif k == 'input':
             upto = st[3] if len(st) > 3 else len(st[1])      # oracle: only the first `upto` variables get assigned
             for lv, w in list(zip(st[1], st[2]))[:upto]:
@@ -753,16 +764,21 @@ class Ref(object):
         elif k == 'def':
             if direct:
                 raise RefError(E_ILLDIRECT)
-            self.fns[st[1]] = ([norm(p) for p in st[2]], st[3])
+            self.fns[st[1]] = (list(st[2]), st[3])
+        elif k == 'deftype':
+            for o in range(ord(st[2]), ord(st[3]) + 1):
+                self.deftype[chr(o)] = DEFT[st[1]]
         else:
             raise ValueError(st)
 
     def snapshot(self):
-        return (dict(self.sv), {k: [v[0], list(v[1])] for k, v in self.arr.items()}, dict(self.fns), self.totmem)
+        return (dict(self.sv), {k: [v[0], list(v[1])] for k, v in self.arr.items()}, dict(self.fns), self.totmem,
+                dict(self.deftype))
 
     def restore(self, snap):
         self.sv, self.arr, self.fns = dict(snap[0]), {k: [v[0], list(v[1])] for k, v in snap[1].items()}, dict(snap[2])
         self.totmem = snap[3]
+        self.deftype = dict(snap[4])
 
     def live_bytes(self):
         """bytes of string space a perfect collector leaves occupied"""
@@ -817,12 +833,16 @@ def check_trace(case, res, strict_fre=True):
                     except RefError:
                         continue
                     if all(bytes((o['sv'][n] or (0, 0, b''))[2] or b'') == bytes(ref.get(n)) for n in STR_SCALARS) \
-                            and all((o['nv'][n] or 0) == ref.get(n)[1] for n in NUM_SCALARS):
+                            and all((o['nv'][n] or 0) == ref.get(n)[1] for n in NUM_SCALARS) \
+                            and all(o['arr'][n] is None or n not in ref.arr or
+                                    all(p[2] is not None and bytes(p[2]) == bytes(ref.arr[n][1][j2])
+                                        for j2, p in enumerate(o['arr'][n][1]) if j2 <= ref.arr[n][0])
+                                    for n in STR_ARRAYS):
                         break
                 else:
                     ref.restore(snap)
             if st[0] == 'def' and not direct:
-                ref.fns[st[1]] = ([norm(p) for p in st[2]], st[3])
+                ref.fns[st[1]] = (list(st[2]), st[3])
             for n in STR_ARRAYS:
                 a = o['arr'][n]
                 if a is not None and n not in ref.arr:
@@ -993,7 +1013,7 @@ class Gen(object):
 
     def arg(self, depth, fns, p):
         rng = self.rng
-        p = norm(p)
+        p = p + '!' if len(p) == 1 else p        # argument types are chosen for the usual default; DEFtype makes mismatches
         if rng.random() < self.badw:       # wrong type: Type mismatch
             return self.nexpr(depth, fns) if p[-1] == '$' else self.sexpr(depth, fns)
         if p[-1] == '$':
@@ -1061,7 +1081,7 @@ class Gen(object):
         if ps and len(ps) < 4 and rng.random() < self.dupw:
             p = rng.choice(ps)
             ps.insert(rng.randrange(len(ps) + 1), p)
-        return [p[0] if p[-1] == '!' and rng.random() < 0.5 else p for p in ps]
+        return [p[0] if p == 'X!' and rng.random() < 0.6 else p for p in ps]
 
     def def_stmt(self, f, depth=3):
         rng = self.rng
@@ -1076,8 +1096,8 @@ class Gen(object):
     def body(self, f, depth, others):
         """expression over the parameters, globals and other functions"""
         rng = self.rng
-        sp = [norm(p) for p in f[1] if norm(p)[-1] == '$']
-        np_ = [norm(p) for p in f[1] if norm(p)[-1] != '$']
+        sp = [p for p in f[1] if p[-1] == '$']
+        np_ = [p for p in f[1] if p[-1] != '$']       # a parameter without a sigil is read without one
 
         def subst(e):
             # replace some variable operands by parameters
@@ -1107,12 +1127,16 @@ def gen_history(rng, nsteps, fnw=0.1, big=0.15, mems=(None, None, None, 30, 60, 
         steps.append({'d': 0, 's': st})
     if fnw >= 0.5:
         # the caller's variables named like parameters hold values of their own
-        for k, p in enumerate(PARAM_NAMES):
+        for k, p in enumerate(PARAM_NAMES + ['X%', 'X#']):
             if rng.random() < 0.7:
                 steps.append({'d': 0, 's': ['let', ['sv', p], ['lit', 'g' + p[0].lower()] if p[-1] == '$' else ['num', 11 + k, '%']]})
     while len(steps) < nsteps:
         if g.fns and rng.random() < 0.04:
             steps.append({'d': 0, 's': g.def_stmt(rng.choice(g.fns), 2)})
+            continue
+        if fnw >= 0.5 and rng.random() < 0.06:
+            lo, hi = rng.choice([('X', 'X'), ('X', 'X'), ('W', 'Z'), ('A', 'Z')])
+            steps.append({'d': 1 if rng.random() < direct else 0, 's': ['deftype', rng.choice(['INT', 'SNG', 'DBL', 'STR']), lo, hi]})
             continue
         st = g.stmt(mem)
         steps.append({'d': 1 if rng.random() < direct else 0, 's': st})
